@@ -119,7 +119,7 @@ pub fn run(args: &Args, rep: &mut Report) {
         }
     }
     // random longer strings
-    let n = args.get_u64("n", if miri { 4 } else if t { 200_000 } else { 10_000 });
+    let n = args.get_u64("n", if miri { 4 } else if t { 1_500_000 } else { 10_000 });
     for i in 0..n {
         if !args.mine(i) {
             continue;
